@@ -37,7 +37,7 @@ var Prop = &engine.Prop{
 		"a quiescent goroutine snapshot of a timer-free execution is a fixed point; 'eventually returns' is judged as 'not parked at a quiescent fixed point'",
 		"SyncQueue.Push after Close is silently dropped, so pushes racing with Close are 'maybe accepted'",
 	},
-	ShardsQuick: 8, ShardsThorough: 48,
+	ShardsQuick: 8, ShardsThorough: 16,
 	Setup: func(c *engine.Ctx) { Q = engine.NewQuiescer() },
 	Kinds: []engine.Kind{
 		{Name: "parked", Quick: 12000, Thorough: 1200000, Fn: parkedCase},
